@@ -127,6 +127,17 @@ def codeword (IO : SymIO σ) (codec : Nat) (p : Params) (H : List (List Nat)) (m
   if codec == 3 then ldpcEncode O p.k H src
   else src ++ (List.range' p.k p.r).map (RS.encode (fldOf codec p.m) O p.k src)
 
+/-- executable hypotheses of the encoder theorems: staircase shape, and the column-weight condition behind the
+"last repair symbol is null" flag -/
+def stairCheck (k : Nat) (H : List (List Nat)) : Bool :=
+  (List.range H.length).all fun i =>
+    let row := H.getD i []
+    decide row.Nodup && row.contains (k + i) && row.all (fun e => e == k + i || e < k + i)
+
+def colWeightOf (H : List (List Nat)) (e : Nat) : Nat := (H.filter fun row => row.contains e).length
+def lastNullCheckX (n : Nat) (H : List (List Nat)) : Bool :=
+  (List.range (n - 1)).all (fun e => colWeightOf H e % 2 == 0) && colWeightOf H (n - 1) % 2 == 1
+
 /-! ## set_fec_parameters -/
 
 /-- returns the new global PRNG state, the status and the configured session -/
